@@ -19,7 +19,17 @@ func (x *Exec) ifaceMethodKey(c *ssa.CallCommon) string {
 }
 
 func (x *Exec) isPureInvoke(c *ssa.CallCommon) bool {
+	// String() and Error() without arguments are formatting getters on every type this code base uses
+	if (c.Method.Name() == "String" || c.Method.Name() == "Error") && len(c.Args) == 0 {
+		return true
+	}
 	return x.CS.IsPure(typeKey(c.Value.Type()), c.Method.Name())
+}
+
+// isLoggingCall: anything in log/slog neither reads nor writes program state that matters here;
+// results are fresh values (trusted-base item "logging has no effect on verified state").
+func isLoggingKey(key string) bool {
+	return strings.HasPrefix(key, "log/slog.") || strings.HasPrefix(key, "log.")
 }
 
 // ifaceUFName names the uninterpreted function of a pure interface method: by method name and
@@ -78,13 +88,49 @@ func (x *Exec) callValue(fr *Frame, st *State, c *ssa.CallCommon, fval Value, ar
 		// symbolic function value: callback obligations, then havoc
 		x.callbackCall(fr, st, c, fv, args)
 		x.havocCall(fr, st, c, args, "function value")
-		ret(fr, st, x.freshResult(st, x.resultType(c), "cb"))
+		res := x.freshResult(st, x.resultType(c), "cb")
+		if fr.isRoot && x.rootC != nil && x.rootC.Attrs["trackcalls"] != "" {
+			st.ghost["$call:"+x.sourceName(fr, c.Value)] = &callRecord{args: append([]Value(nil), args...), res: res, sig: c.Signature(), rt: x.resultType(c)}
+		}
+		ret(fr, st, res)
 		return
 	}
 	fn := fv.Fn
 	key := funcKey(fn)
+	x.checkCallEvent(fr, st, key, c, args)
+	if fr.isRoot && x.rootC != nil && x.rootC.Attrs["trackcalls"] != "" {
+		// record arguments and result of calls made by the function under verification, for
+		// called(F) / callres(F) / callarg(F, i) in its postconditions
+		short := key[strings.LastIndex(key, "/")+1:]
+		orig := ret
+		sig := c.Signature()
+		rt := x.resultType(c)
+		argsCopy := append([]Value(nil), args...)
+		ret = func(f *Frame, s *State, res Value) {
+			s.ghost["$call:"+short] = &callRecord{args: argsCopy, res: res, sig: sig, rt: rt}
+			orig(f, s, res)
+		}
+	}
 	if h, ok := intrinsics[key]; ok {
 		ret(fr, st, h(x, fr, st, c, args))
+		return
+	}
+	if key == "sync.(*Once).Do" && len(args) == 2 {
+		// Once.Do(f): f runs at most once - explore both "f is called now" and "f was called before"
+		if cl, ok := args[1].(*FuncV); ok && cl.Fn != nil && cl.Fn.Blocks != nil {
+			x.note("intrinsic sync.Once.Do: both outcomes (closure runs / already ran) explored")
+			cond := x.freshSym("once.first", SBool)
+			x.fork(fr, st, cond, func(f2 *Frame, s2 *State) {
+				x.inline(f2, s2, cl.Fn, cl, nil, func(f3 *Frame, s3 *State, _ Value) { ret(f3, s3, nil) }, k)
+			}, func(f2 *Frame, s2 *State) {
+				ret(f2, s2, nil)
+			})
+			return
+		}
+	}
+	if isLoggingKey(key) {
+		x.note("intrinsic logging call treated as effect-free: " + key)
+		ret(fr, st, x.freshResult(st, x.resultType(c), "log"))
 		return
 	}
 	if strings.HasPrefix(key, "math/big.") {
@@ -353,9 +399,13 @@ func (x *Exec) applyContractDesc(fr *Frame, st *State, d *calleeDesc, con *FuncC
 		env.bind(n, TV{args[i], pt})
 		env.bind(n+"0", TV{args[i], pt})
 	}
+	evLets := eventLets(con)
 	for _, c := range con.Clauses {
 		switch c.Kind {
 		case "let":
+			if evLets[c.Name] {
+				continue
+			}
 			func() {
 				defer func() {
 					if r := recover(); r != nil {
@@ -403,10 +453,17 @@ func (x *Exec) applyContractDesc(fr *Frame, st *State, d *calleeDesc, con *FuncC
 	for _, c := range con.Clauses {
 		switch c.Kind {
 		case "let":
+			if evLets[c.Name] {
+				continue
+			}
 			if _, ok := post.names[c.Name]; !ok {
 				post.bind(c.Name, x.evalSpec(post, c.E))
 			}
 		case "ensures", "assume":
+			if mentionsCallEvents(c.E, evLets) {
+				// about the callee's internal calls: proved for the callee, not usable by its callers
+				continue
+			}
 			st.Assume(x.specBool(post, c.E))
 		}
 	}
@@ -717,7 +774,7 @@ func (x *Exec) callbackCall(fr *Frame, st *State, c *ssa.CallCommon, fv *FuncV, 
 	if x.rootC == nil {
 		return
 	}
-	tgt := x.describeFuncSource(c.Value)
+	tgt := x.sourceName(fr, c.Value)
 	n := 0
 	for _, cl := range x.rootC.Clauses {
 		if cl.Kind != "callback" || !matchTarget(cl.Name, tgt) {
